@@ -51,7 +51,11 @@ EXPLANATION = ('Verified validator: check_shape g s = true implies that, for eve
                're-wrapping sequences after narrow + - * << (present after fixes/C23-rewrap-narrow.diff) make those rows '
                'exact (proved), and the whole table exact when rewrap_complete evaluates to true; integer casts: conversion '
                'opcode + re-wrapping equals the IR cast for every row classified good (proved), the remaining rows '
-               '(cast_bad_rows) are refuted or recorded findings.')
+               '(cast_bad_rows) are refuted or recorded findings; c23_cast_exact covers all casts when cast_bad_rows is empty. '
+               'Loads/stores: for every exported (type, opcode) row the wasm load returns the representation of what '
+               'the IR load reads from the same bytes and the wasm store writes the bytes the IR store writes '
+               '(WasmMemSpec.mem_load/mem_store vs le_decode/wrap_ty/le_encode; offset 0); the memory layouts themselves '
+               '(IRSem association memory vs flat wasm memory) are not related by a theorem.')
 TRUSTED = ['export of CFG/shape terms (tools/props/c23.py: cfg_of_function, shape_to_coq) and of the operator table',
            'Spec/StructSpec.v reading of do_shape (if/else/end, block+loop, br) as structured semantics',
            'Spec/WasmNumSpec.v (owned by C22) and Spec/IRSem.v (IR hub) as the two reference semantics',
@@ -74,8 +78,10 @@ MANIFEST = {
             'the verified validator into relooper.find_structure; create_wasm_module builds components.Data with stale '
             'arguments (every module with an initialised global or literal is rejected) -> fix (both applied); sub-word/u32 '
             'arithmetic and narrowing casts are never re-wrapped -> fixes/C23-rewrap-narrow.diff; ptr uses signed / % >> '
-            'and compares, same-size sign casts are elided, i32->u64 zero-extends (known findings). Loads/stores, '
-            'constants and unary operators have no theorem',
+            'and compares, same-size sign casts are elided, i32->u64 zero-extends (known findings). Loads/stores: every exported row proved against '
+            'WasmMemSpec/IRSem byte encodings (c23_loadstore_table_sound); all casts exact once cast_bad_rows is empty '
+            '(c23_cast_exact, after fixes/C23-subword-sign-cast.diff and C23-cast-i32-u64-sign-extend.diff). Constants and '
+            'unary operators have no theorem; ptr signedness is not repaired (ptr is selected as I32 before do_tree)',
     'technique': 'verified validator + reflected operator table + differential execution',
 }
 
@@ -649,6 +655,53 @@ def cast_module(ir, fromname, toname):
     return m
 
 
+def load_module(ir, tyname):
+    ty = irty(ir, tyname)
+    m = ir.Module('m')
+    f = ir.Function('f', ir.Binding.GLOBAL, ty)
+    m.add_function(f)
+    p = ir.Parameter('p', ir.ptr)
+    f.add_parameter(p)
+    blk = ir.Block('e')
+    f.add_block(blk)
+    f.entry = blk
+    r = ir.Load(p, 'r', ty)
+    blk.add_instruction(r)
+    blk.add_instruction(ir.Return(r))
+    return m
+
+
+def store_module(ir, tyname):
+    ty = irty(ir, tyname)
+    m = ir.Module('m')
+    f = ir.Procedure('f', ir.Binding.GLOBAL)
+    m.add_function(f)
+    p, v = ir.Parameter('p', ir.ptr), ir.Parameter('v', ty)
+    f.add_parameter(p)
+    f.add_parameter(v)
+    blk = ir.Block('e')
+    f.add_block(blk)
+    f.entry = blk
+    blk.add_instruction(ir.Store(v, p))
+    blk.add_instruction(ir.Exit())
+    return m
+
+
+def mem_row(ins, kind, what):
+    """(container, bytes, sign-extend) of the single load/store instruction; static offset must be 0"""
+    import re
+    hits = [(o, a) for o, a in ins if ('.' + kind) in o]
+    if len(hits) != 1:
+        raise TieBroken('expected one %s for %s: %r' % (kind, what, ins))
+    o, a = hits[0]
+    mo = re.fullmatch(r'(i32|i64)\.%s(8|16|32)?(_s|_u)?' % kind, o)
+    if not mo or (a and int(a[0]) != 0):
+        raise TieBroken('unexpected %s instruction for %s: %r %r' % (kind, what, o, a))
+    cw = {'i32': 'W32', 'i64': 'W64'}[mo.group(1)]
+    nbytes = int(mo.group(2)) // 8 if mo.group(2) else {'i32': 4, 'i64': 8}[mo.group(1)]
+    return cw, nbytes, mo.group(3) == '_s'
+
+
 CONVS = {'i32.wrap_i64': 'CvWrap', 'i64.extend_i32_s': 'CvExtS', 'i64.extend_i32_u': 'CvExtU'}
 ITYS = ['i8', 'i16', 'i32', 'i64', 'u8', 'u16', 'u32', 'u64']
 
@@ -703,6 +756,15 @@ def export_tables(ctx):
                 cv = CONVS[body[0][0]]
                 body = body[1:]
             castrows.append((fr, to, cv, post_of(body, 'cast %s->%s' % (fr, to))))
+    ldrows, strows = [], []
+    for tyname in TYS:
+        for kind, mk, acc in (('load', load_module, ldrows), ('store', store_module, strows)):
+            try:
+                ins = func_instrs(compile_module(mk(ir, tyname)))
+            except Exception as ex:
+                rejected.append((kind, tyname, type(ex).__name__))
+                continue
+            acc.append((tyname,) + mem_row(ins, kind, '%s %s' % (kind, tyname)))
     text = ['(* generated by tools/props/c23.py from ppci/wasm/ppci2wasm.py (compiled one-instruction functions) *)',
             'From Coq Require Import List.', 'Import ListNotations.',
             'From PV Require Import Spec.IRSyntax Spec.WasmNumSpec Model.Ir2WasmPost.',
@@ -718,8 +780,14 @@ def export_tables(ctx):
     text.append('Definition casttable : list (ty * ty * conv * post) := [')
     text.append(';\n'.join('  (%s, %s, %s, %s)' % (TYC[f], TYC[t], cv, p) for f, t, cv, p in castrows))
     text.append('].')
+    text.append('Definition loadtable : list (ty * width * nat * bool) := [')
+    text.append(';\n'.join('  (%s, %s, %d%%nat, %s)' % (TYC[t], cw, n, 'true' if sx else 'false') for t, cw, n, sx in ldrows))
+    text.append('].')
+    text.append('Definition storetable : list (ty * width * nat) := [')
+    text.append(';\n'.join('  (%s, %s, %d%%nat)' % (TYC[t], cw, n) for t, cw, n, sx in strows))
+    text.append('].')
     ctx.write_gen('Tab_ir2wasm', '\n'.join(text) + '\n')
-    ctx.cov['stages']['op_table'] = {'rows': len(rows), 'cmp_rows': len(crows), 'cast_rows': len(castrows),
+    ctx.cov['stages']['op_table'] = {'rows': len(rows), 'cmp_rows': len(crows), 'cast_rows': len(castrows), 'load_rows': len(ldrows), 'store_rows': len(strows),
                                      'rewrapped_rows': sum(1 for r in prows if r[2] != 'PNone'), 'rejected': len(rejected)}
     return rows, crows, rejected
 
@@ -951,13 +1019,18 @@ def stage_casts(ctx):
     ir, R, ppci2wasm, components = _ppci()
     import irsem_py
     from ppci.wasm import instantiate
-    out = ctx.eval_terms('tables', ['Proofs.C23_table2', 'Model.Ir2WasmPost'],
-                         ['rewrap_complete', 'Z.of_nat (List.length cast_bad_rows)'])
+    out = ctx.eval_terms('tables', ['Proofs.C23_table2', 'Proofs.C23_table3', 'Model.Ir2WasmPost'],
+                         ['rewrap_complete', 'Z.of_nat (List.length cast_bad_rows)',
+                          'Z.of_nat (List.length mem_bad_rows)'])
     import re
     vals = re.findall(r'=\s*(VBool\s+\w+|VInt\s+\(?-?\d+\)?|[^\n]+)', out)
     complete = 'true' in (vals[0] if vals else '')
     nbad = int(re.findall(r'-?\d+', vals[1])[0]) if len(vals) > 1 and re.findall(r'-?\d+', vals[1]) else -1
-    ctx.cov['stages']['tables_status'] = {'rewrap_complete': complete, 'cast_rows_not_proved': nbad}
+    nmem = int(re.findall(r'-?\d+', vals[2])[0]) if len(vals) > 2 and re.findall(r'-?\d+', vals[2]) else -1
+    ctx.cov['stages']['tables_status'] = {'rewrap_complete': complete, 'cast_rows_not_proved': nbad,
+                                          'loadstore_rows_not_proved': nmem}
+    if nmem != 0:
+        ctx.failed_stages.append(('loadstore_table', 'a load/store row of the compiler is not of the proved form (mem_bad_rows)'))
     cfg = (4, 1000, 1 << 20)
     tybits = {'i8': (8, True), 'i16': (16, True), 'i32': (32, True), 'i64': (64, True), 'u8': (8, False),
               'u16': (16, False), 'u32': (32, False), 'u64': (64, False)}
@@ -1200,7 +1273,7 @@ def run(ctx):
         ctx.failed_stages.append(('tie', str(ex)))
         rows, crows = [], []
     ok, _ = ctx.build(['Proofs/C23_shape.vo', 'Proofs/C23_ops.vo', 'Proofs/C23_data.vo', 'Proofs/C23_table.vo', 'Proofs/C23_doshape.vo',
-                       'Proofs/C23_post.vo', 'Proofs/C23_table2.vo'])
+                       'Proofs/C23_post.vo', 'Proofs/C23_table2.vo', 'Proofs/C23_mem.vo', 'Proofs/C23_table3.vo'])
     if ok:
         ctx.check_props('Props/C23.v')
     ctx.build(['Model/ShapeCheck.vo', 'Model/ShapeCompile.vo', 'Model/Ir2WasmOps.vo', 'Lib/Val.vo'])
